@@ -87,15 +87,15 @@ ASSUMPTIONS = [
 ]
 BUDGET = {"quick": 60, "thorough": 540}
 FLOORS = {
-    # measured (quick, seed 0, tree at d4e40d1): 26 233 cases, 25 150 distinct non-trivial, 339 614 order() calls,
-    # acyclic_checked 324 204, cyclic_rejected 15 251, edges_checked 1 093 211, external_ref_calls 177 477,
-    # return_stats_calls 167 886, line_events 210 M, tower_programs 1 500 (1 273 with the data-root feature), shapes 2 607
+    # measured (quick, seed 0, tree at d4e40d1): 26 233 cases, 25 150 distinct non-trivial, 238 016 order() calls,
+    # acyclic_checked 222 606, cyclic_rejected 15 251, edges_checked 793 595, external_ref_calls 122 131,
+    # return_stats_calls 117 087, line_events 147 M, tower_programs 1 500 (1 273 with the data-root feature), shapes 2 607
     "quick": {"evaluations": 12000, "distinct_nontrivial": 11500,
-              "counters": {"order_calls": 155000, "acyclic_checked": 145000, "cyclic_rejected": 6800,
-                           "edges_checked": 490000, "external_ref_calls": 80000, "return_stats_calls": 75000,
+              "counters": {"order_calls": 107000, "acyclic_checked": 100000, "cyclic_rejected": 6800,
+                           "edges_checked": 355000, "external_ref_calls": 55000, "return_stats_calls": 52000,
                            "borrowed_graphs": 230, "scheduler_order_calls": 50, "big_graphs": 220,
                            "tower_programs": 700, "data_root_only_under_striplists_programs": 550,
-                           "line_events": 90000000},
+                           "line_events": 65000000},
               "sets": {"shapes": 1100, "borrowed_recipes": 10}},
     # measured (thorough, seed 0, tree before d6fa8cf, without the 40 000 tower programs added afterwards): 257 785 cases,
     # 220 244 distinct non-trivial, 1 504 780 order() calls, acyclic_checked 1 274 691, cyclic_rejected 182 597,
